@@ -16,6 +16,7 @@
   Keys are the 21 canonical keys `allKeys` (what `c_` produces, C10).
 -/
 import CijProofs.Lemmas.Tasks
+import CijProofs.Lemmas.TasksSource
 import CijProofs.Lemmas.Isotropic
 import CijProofs.Lemmas.Permutation
 import CijProofs.Lemmas.Degenerate
@@ -443,5 +444,24 @@ example :
     validOrder 4 [(2, 1), (3, 1), (3, 1), (0, 1)] [0, 2, 3, 1] = true ∧
     validOrder 4 [(2, 1), (3, 1), (3, 1), (0, 1)] [0, 1, 2, 3] = false := by
   decide +kernel
+
+/-! #### the task parameters are the source's -/
+
+omit [Field R] in
+/-- **model-is-source** for `PhononContributionTaskParams.create`: the two parameters of a non-shear task are the strain columns
+`i-1` and `k-1` of `i, j, k, l = key.s`, each divided by the row sum — as extracted from `tasks.py` on this run
+(`Generated/TasksSpec.lean`); a shear task keeps `(strain, key)`.  `__eq__`, `_STRAIN_RTOL` (a rounding-level tolerance, second
+conjunct) and the store wiring of `calculate()` are pinned by the same translator. -/
+theorem tasks_model_is_source {α : Type} [Add α] [Div α] (strain : SField α) (key : Modulus) :
+    (match Generated.makeParamCols with
+      | [c0, c1] => create strain key =
+          if key.isShear then .shear strain key
+          else .nonshear key.calcType (component strain (colOf key c0)) (component strain (colOf key c1))
+      | _ => False) ∧
+    (0 < Generated.strainRtol.1 ∧ Generated.strainRtol.1 * 1000000000 ≤ Generated.strainRtol.2) :=
+  ⟨create_is_source strain key, strain_rtol_tight⟩
+
+/-- non-vacuity: for `c12` the columns are 0 and 1 -/
+example : colOf (keyOfVoigt (1, 2)) ("i", 1) = 0 ∧ colOf (keyOfVoigt (1, 2)) ("k", 1) = 1 := by decide
 
 end Cij.C04
